@@ -286,7 +286,7 @@ package bt
 //@   fresh result
 //@   ensures[C11.size_data_bytes] (and (not (nil? result)) (= (. result TotalDataBytes) (old (spec.data_bytes tx))))
 //@   ensures[C11.size_split] (=> (<= (old (spec.data_bytes tx)) (. result TotalBytes)) (= (+ (. result TotalStdBytes) (. result TotalDataBytes)) (. result TotalBytes)))
-//@   loop 0 invariant (= dataLen (spec.data_bytes_k tx (+ rangeindex 1)))
+//@   loop 0 invariant (and (<= 0 dataLen) (= dataLen (spec.data_bytes_k tx (+ rangeindex 1))))
 //@   loop 0 invariant (spec.out_scripts_nonnil tx)
 
 //@ func bt.(*Tx).feesPaid
